@@ -416,6 +416,12 @@ def run(cx, rep):
     rejecting_visited_set_rule(cx, rep, "C08.12")
     # ---------------------------------------------------------------- C08.13
     per_binding_result_rule(cx, rep, "C08.13")
+    # ---------------------------------------------------------------- C08.14 (= C13.12)
+    # renaming an alias (or inlining it) reorders the members of a union / intersection of named types as the compiler
+    # lists them; a digest written in list order changes with it
+    rep.rule("C08.14", "hash256 / hash of a union or intersection do not change when its named members are renamed or inlined (= C13.12)")
+    from rules.c01 import lifted_rules
+    lifted_rules(cx, rep, "C08.14", (("rules.c13", "C13.12"),))
     rep.rule("C08.7", "the dispatch table and the schema table of a discriminated union are built alike")
     sibling_tables_rule(cx, rep, "C08.7")
     rep.rule("C08.8", "renaming, introducing or inlining a generic wrapper does not change what a type parameter means (scope stacks are searched innermost-first; = C01.8)")
